@@ -1,6 +1,9 @@
 """./check Cnn --tier quick|thorough [--replay file]"""
 import argparse, collections, importlib, json, os, random, sys, time, traceback
 sys.path.insert(0, os.path.dirname(os.path.abspath(__file__)))
+if os.environ.get('PMV_REPO'):
+    # development only: run the harness against a scratch worktree of the repository instead of /repo
+    sys.path.insert(0, os.environ['PMV_REPO'])
 import common as C
 
 
@@ -39,7 +42,7 @@ def replay(mod, prop, path):
     print('case:', json.dumps(case))
     print('implementation:', got)
     try:
-        model = C.run_driver([C.sx(case['req'])])[0] if case.get('req') is not None else None
+        model = C.run_driver(prop, [C.sx(case['req'])])[0] if case.get('req') is not None else None
     except Exception as e:
         model = 'driver-unavailable: %s' % e
     print('model         :', model)
@@ -73,7 +76,7 @@ def evaluate(mod, cases):
     par = getattr(mod, 'PARALLEL', False)
     if par and len(cases) > 200:
         import multiprocessing as mp
-        with mp.get_context('fork').Pool(min(16, os.cpu_count() or 1)) as pool:
+        with mp.get_context('fork').Pool(int(os.environ.get('PMV_JOBS') or min(16, os.cpu_count() or 1))) as pool:
             return pool.map(_work, [(mod.__name__, c) for c in cases], chunksize=50)
     return [(safe_impl(mod, c), safe_oracle(mod, c)) for c in cases]
 
@@ -92,7 +95,7 @@ def run(mod, prop, tier, seed, no_build):
     modules = list(mod.LEAN_MODULES)
     build_ok = True
     if not no_build:
-        rc, out = C.lake_build(modules + ['driver'])
+        rc, out = C.lake_build(modules + ['driver_' + prop.lower()])
         if rc != 0:
             build_ok = False
             broken.append({'kind': 'lean-build', 'detail': out[-3000:]})
@@ -123,12 +126,12 @@ def run(mod, prop, tier, seed, no_build):
     results = evaluate(mod, cases)
     reqs = [(i, C.sx(c['req'])) for i, c in enumerate(cases) if c.get('req') is not None]
     model_out = {}
-    driver_ok = os.path.exists(C.DRIVER)
+    driver_ok = os.path.exists(C.driver_path(prop))
     if reqs and driver_ok:
-        outs = C.run_driver([r for _, r in reqs])
+        outs = C.run_driver(prop, [r for _, r in reqs])
         model_out = {i: o for (i, _), o in zip(reqs, outs)}
     elif reqs:
-        broken.append({'kind': 'driver-missing', 'detail': C.DRIVER})
+        broken.append({'kind': 'driver-missing', 'detail': C.driver_path(prop)})
     mismatches, failures = [], []
     hist = collections.Counter()
     distinct = set()
